@@ -19,6 +19,27 @@ CLAIMED = {
  "C07": dict(cat="proof", tech="bit-matrix extraction by value numbering; rank, Berlekamp-Massey minimal polynomial, primitivity test with certified factorisation of 2^n-1",
    text="For each of the 15 linear generator types the step is shown GF(2)-linear without constant term, of full rank, with a primitive characteristic polynomial of degree n; this is equivalent to the statement (single cycle of length 2^n-1 on the non-zero states).",
    note=TB + "; factor table of 2^512-1 re-verified with Pratt certificates on every run", ref="4/C07"),
+ "C05": dict(cat="other", tech="value numbering with the projected method kept as an opaque, state-threading call; identity with the projection table",
+   text="For each of the 20 generator types the three RngCore methods are value-numbered and compared (normal-form identity of returned value, final state, destination buffer, call count, absence of other effects) with the row of the projection table the property states: which half, which order, how many native calls, which delegate.",
+   note=TB + "; rand_core's fill_bytes_via_next / BlockRng semantics for odd lengths and refills are the dependency's (source pinned by hash)", ref="4/C05"),
+ "C08": dict(cat="other", tech="value numbering under path assumptions (zero / non-zero seed), GF(2) rank of the decode, bijection-chain recognition of SplitMix64's output, constant propagation of the zero-seed path, who-constructs query, compile-fail witness",
+   text="from_seed of the 14 xoshiro types is shown to be ite(AllZero(whole seed), Self::seed_from_u64(0), bijective LE decode); seed_from_u64 is from_rng on SplitMix64{x}; SplitMix64's output is a bijection of its counter and PHI != 0; the all-zero seed constant-folds to a non-zero state; XorShiftRng maps the zero seed to 0x0BAD5EED x4; generator ADTs are constructed only by the seeding API.",
+   note=TB + "; rand_core default from_rng/try_from_rng", ref="4/C08"),
+ "C10": dict(cat="other", tech="value numbering of every Clone::clone and PartialEq::eq body on symbolic values; identity with the all-fields conjunction",
+   text="Every Clone impl returns a value identical in every leaf; every == is exactly the conjunction of whole-leaf equalities over all fields (one frozen, reasoned exception: Hc128Rng omits BlockRng.results).",
+   note=TB + "; futures depend on fields only: C19", ref="4/C10"),
+ "C11": dict(cat="other", tech="value numbering of the derive-generated serialize / visit_seq bodies and of isaac_array_serde with opaque (de)serializer; per-argument taint of opaque calls; call-site counts for visit_map",
+   text="Field-complete writer, field-complete reader (no default/skip), same order, and agreement (length 256, order) of the hand-written 256-element array (de)serializer, decided on the serde configuration's facts for all 21 serializable types.",
+   note=TB + "; serde_derive attribute semantics, rand_core's BlockRng derives, the wire format", ref="4/C11"),
+ "C17": dict(cat="other", tech="taint analysis over value-numbered fmt bodies with trait objects followed through compiler-resolved vtables",
+   text="For the 8 state-hiding types, every value that reaches a core formatting sink from Debug::fmt (following &dyn Debug into BlockRng's and the cores' own fmt) is collected; its symbol set must be empty (cores, XorShiftRng, JitterRng) or within {index, half_used} (BlockRng wrappers).",
+   note=TB + "; core::fmt prints only what it is given", ref="4/C17"),
+ "C18": dict(cat="other", tech="differential value numbering across build configurations; cfg-predicate allow-list scan; unsafe allow-list from HIR; float-type scan",
+   text="Every operation of every generator is value-numbered in each configuration (dev/rel x default/serde/std+log) on identical symbolic inputs and must give identical normal forms; all cfg predicates are in a frozen allow-list; no profile-dependent macro or predicate; unsafe sites equal the reasoned allow-list.",
+   note=TB + "; compiler/LLVM correctness; endianness and pointer width outside the configuration set; overflow edges: C14", ref="4/C18"),
+ "C19": dict(cat="other", tech="exhaustive enumeration over item tables and the resolved call graph; compiler-computed Freeze; type-level witness crate with compile-fail twins",
+   text="Statics/thread-locals/interior-mutable consts are exactly the frozen set with frozen readers; transitive field types are plain data; no static, FFI, allocation or I/O is reachable from a generator operation; all generator types are Send+Sync+'static (witness crate), with twins that must fail (E0277, E0451).",
+   note=TB + "; cargo check of the witness crate against /repo", ref="4/C19"),
 }
 
 checks = []
